@@ -847,3 +847,44 @@ pub fn minimise(def: &CheckDef, v: &VRec, tier: Tier) -> (VRec, bool, usize) {
     out.detail = best_v.detail;
     (out, true, orig)
 }
+
+/// `check <id> determinism [n]`: the first n runs of every scenario, executed in separate processes at
+/// worker counts 1, 4 and 16 and twice at 16; all event-log hashes must agree.
+pub fn determinism_main(id: &str, n: u64) -> i32 {
+    let def = match checks::find(id) {
+        Some(d) => d,
+        None => {
+            eprintln!("unknown check {}", id);
+            return 2;
+        }
+    };
+    let seeds: Vec<u64> = std::env::var("VERIF_SEEDS").ok().map(|s| s.split(',').filter_map(|x| x.parse().ok()).collect()).unwrap_or_else(|| vec![1, 2, 3]);
+    let mut total = 0u64;
+    for seed in seeds {
+        let mut maps: Vec<BTreeMap<(String, u64), u64>> = Vec::new();
+        for w in [1u64, 4, 16, 16] {
+            let m = match run_batch(def, Tier::Quick, seed, w, &[format!("--trace-first={}", n), format!("--only-first={}", n)]) {
+                Ok(m) => m,
+                Err(e) => {
+                    eprintln!("HARNESS ERROR: {}", e);
+                    return 2;
+                }
+            };
+            maps.push(m.rep.trace_hashes.iter().map(|(s, i, h)| ((s.clone(), *i), *h)).collect());
+        }
+        for (k, h) in &maps[0] {
+            for (j, m) in maps.iter().enumerate().skip(1) {
+                match m.get(k) {
+                    Some(h2) if h2 == h => total += 1,
+                    other => {
+                        println!("NONDETERMINISM check={} seed={} run={:?}: {:x} with 1 worker, {:?} in batch {}", id, seed, k, h, other, j);
+                        return 1;
+                    }
+                }
+            }
+        }
+        println!("determinism check={} seed={}: {} runs x 4 executions (1, 4, 16, 16 workers) agree", id, seed, maps[0].len());
+    }
+    println!("determinism check={}: {} pairwise comparisons, all equal", id, total);
+    0
+}
